@@ -27,7 +27,9 @@ import (
 type apRes struct {
 	Name     string  `json:"name"`
 	Outputs  amounts `json:"outputs"`
-	Input    int64   `json:"input_value"`
+	Input    int64   `json:"input_value"` // value of the DISTINCT outputs spent
+	Inputs   int     `json:"inputs_listed"`
+	Distinct int     `json:"distinct_outpoints"`
 	Sanity   string  `json:"sanity"`
 	Context  string  `json:"context"`
 	Accepted bool    `json:"accepted"`
@@ -62,18 +64,29 @@ func runAPConfirm(scr string) []apRes {
 	if p := st.GetProducer(nodeKey.Compressed); p != nil {
 		pstate = p.State().String()
 	}
-	fund, err := n.Fund("c01-ap", lightnode.Output(payer.StandardHash(), 1000), lightnode.Output(payer.StandardHash(), 1000), lightnode.Output(payer.StandardHash(), 1000))
+	var fundOuts []*common2.Output
+	for i := 0; i < 16; i++ {
+		fundOuts = append(fundOuts, lightnode.Output(payer.StandardHash(), 1000))
+	}
+	fund, err := n.Fund("c01-ap", fundOuts...)
 	if err != nil {
 		evid.Fatalf("fund: %v", err)
 	}
 	var out []apRes
+	next := 0
 	for i, vct := range []struct {
 		name string
 		outs []int64
+		ins  []inRef
 	}{
-		{"control: 1000 -> 1000 (fee 0)", []int64{1000}},
-		{"negative output: 1000 -> 1000000, -999000", []int64{1000000, -999000}},
-		{"wrapping outputs: 1000 -> 2^62 x4, 1000", []int64{1 << 62, 1 << 62, 1 << 62, 1 << 62, 1000}},
+		{"control: 1000 -> 1000 (fee 0)", []int64{1000}, nil},
+		{"negative output: 1000 -> 1000000, -999000", []int64{1000000, -999000}, nil},
+		{"wrapping outputs: 1000 -> 2^62 x4, 1000", []int64{1 << 62, 1 << 62, 1 << 62, 1 << 62, 1000}, nil},
+		{"control: two distinct inputs -> 2000", []int64{2000}, []inRef{{0, 0}, {1, 0}}},
+		{"same outpoint twice (equal sequence) -> 2000", []int64{2000}, []inRef{{0, 0}, {0, 0}}},
+		{"same outpoint twice (different sequence) -> 2000", []int64{2000}, []inRef{{0, 0}, {0, 1}}},
+		{"same outpoint three times -> 3000", []int64{3000}, []inRef{{0, 0}, {0, 1}, {0, 2}}},
+		{"A,B,A' -> 3000", []int64{3000}, []inRef{{0, 0}, {1, 0}, {0, 1}}},
 	} {
 		ap := &payload.ActivateProducer{NodePublicKey: nodeKey.Compressed}
 		buf := new(bytes.Buffer)
@@ -88,14 +101,27 @@ func runAPConfirm(scr string) []apRes {
 			outs = append(outs, lightnode.Output(payer.StandardHash(), common.Fixed64(v)))
 		}
 		attr := common2.NewAttribute(common2.Nonce, []byte(fmt.Sprintf("c01-ap-%d", i)))
+		shape := vct.ins
+		if shape == nil {
+			shape = []inRef{{0, 0}}
+		}
+		var ins []*common2.Input
+		distinct := map[int]bool{}
+		for _, ir := range shape {
+			in := lightnode.Input(fund, next+ir.Slot)
+			in.Sequence = ir.Seq
+			ins = append(ins, in)
+			distinct[ir.Slot] = true
+		}
+		next += len(distinct)
 		tx := transaction.CreateTransaction(common2.TxVersion09, common2.ActivateProducer, 0, ap,
-			[]*common2.Attribute{&attr}, []*common2.Input{lightnode.Input(fund, i)}, outs, 0, nil)
+			[]*common2.Attribute{&attr}, ins, outs, 0, nil)
 		p, err := lightnode.SignStandard(tx, payer)
 		if err != nil {
 			evid.Fatalf("sign: %v", err)
 		}
 		tx.SetPrograms([]*program.Program{p})
-		r := apRes{Name: vct.name, Outputs: vct.outs, Input: 1000, Producer: pstate}
+		r := apRes{Name: vct.name, Outputs: vct.outs, Input: 1000 * int64(len(distinct)), Inputs: len(ins), Distinct: len(distinct), Producer: pstate}
 		h := uint32(h0 + 20)
 		s := n.SanityCheck(tx, h, nil)
 		r.Sanity = s.String()
